@@ -26,7 +26,7 @@ def run(ctx):
     if not h:
         return
     rng = ctx.rng
-    N = 6000 if not ctx.thorough else 120000
+    N = 30000 if not ctx.thorough else 400000
     items, exp = [], []
     for ln in _json.corpus_lines("C06"):
         pass
